@@ -7,7 +7,7 @@
 From Coq Require Import List Bool ZArith Lia.
 Import ListNotations.
 From Rosed Require Import Base.Res Base.ListX Base.Utf8 Gem.Segment Gem.GString Model.Manip Model.Table Model.Options Model.Editor Model.Ops
-     Proofs.C04P Proofs.C14P Proofs.C18P Proofs.SeamP Proofs.C18Q Proofs.C18R Proofs.C14R.
+     Proofs.C04P Proofs.C14P Proofs.C18P Proofs.SeamP Proofs.C18Q Proofs.C18R Proofs.C14R Proofs.C18S.
 Open Scope Z_scope.
 
 (* Chars / Insert / Delete / Overtype on any valid UTF-8 text, any integer positions *)
@@ -85,3 +85,26 @@ Theorem C18_two_columns : forall (C : Classifier) (K : ClassifierOk) (U : Upper)
   exists r, insert_two_columns_opts pos lt rt gap width m ex opts (Ed (encode rs) o ref) = Ok r.
 Proof. intros C K U. exact two_columns_total. Qed.
 Print Assumptions C18_two_columns.
+
+(* InsertDefinitionsTable and InsertTable: every list of definitions / grid of cells, width,
+   position and option set, on any Editor holding valid UTF-8 - padding counts are never
+   negative, block indexes stay in range *)
+Theorem C18_definitions_table : forall (C : Classifier) (K : ClassifierOk) (U : Upper) pos defs width opts rs o ref, scalars rs ->
+  exists r, insert_definitions_table_opts pos defs width opts (Ed (encode rs) o ref) = Ok r.
+Proof. intros C K U. exact definitions_table_total. Qed.
+Print Assumptions C18_definitions_table.
+
+Theorem C18_table : forall (C : Classifier) (K : ClassifierOk) (U : Upper) pos data width opts rs o ref, scalars rs ->
+  exists r, insert_table_opts pos data width opts (Ed (encode rs) o ref) = Ok r.
+Proof. intros C K U. exact table_total. Qed.
+Print Assumptions C18_table.
+
+(* Justify and Indent in every mode (Justify without JustifyLastLine goes through the
+   sub-editor of all lines but the last and its Commit) *)
+Theorem C18_justify_editor_all : forall (C : Classifier) (K : ClassifierOk) (U : Upper) width opts e, exists r, justify_opts width opts e = Ok r.
+Proof. intros C K U. exact justify_opts_total_all. Qed.
+Print Assumptions C18_justify_editor_all.
+
+Theorem C18_indent_editor_all : forall (C : Classifier) (K : ClassifierOk) (U : Upper) level opts e, exists r, indent_opts level opts e = Ok r.
+Proof. intros C K U. exact indent_opts_total_all. Qed.
+Print Assumptions C18_indent_editor_all.
